@@ -121,7 +121,8 @@ def judge(case):
                 if b is None:
                     continue
                 L = max(1.0, a.norm)
-                eps = 0.5 * L + max(0.0, cfg["reuse_tolerance"]) * 1.4143 * max(1.0, rf.scale * rf.user_norm) + 1e-6 * upem + 1e-6
+                # same reuse allowance as display.Budget (A3): sqrt(2) per point, x2 because picosvg compares relative path parameters
+                eps = 0.5 * L + max(0.0, cfg["reuse_tolerance"]) * 1.4143 * 2.0 * max(1.0, rf.scale * rf.user_norm) + 1e-6 * upem + 1e-6
                 prot = max(box[0] - b[0], box[1] - b[1], b[2] - box[2], b[3] - box[3])
                 if prot > eps:
                     v.fail("source-shape-clipped", "source shape lies outside the ClipBox", {"source": i, "leaf": k, "box": box, "bounds": b, "protrusion": prot, "eps": eps})
